@@ -14,6 +14,12 @@ NOTE = ("exhaustive only within the bounded universes listed in the evidence fil
         "harness/realize.py are trusted")
 
 ENGINES = {
+    "tlc-scratchdb": ("spec/ScratchDB.tla", "TLA+ specification of trie.utils.db.ScratchDB (buffer, ghost latest-action "
+                      "map, every way of leaving batch_commit), model checked exhaustively by TLC (with and without "
+                      "state merging) and simulated; every behaviour replayed on the real class by harness/scratchdb.py"),
+    "tlc-fog": ("spec/Fog.tla", "TLA+ specification of trie.fog.HexaryTrieFog (explore / mark_all_complete with their "
+                "refusals, transcribed nearest_unknown / nearest_right next to the contracts the property states), model "
+                "checked by TLC; behaviours replayed on the real class by harness/fog.py"),
     "tlc-hexary": ("spec/HexaryTrie.tla", "TLA+ specification (MPT.tla pure operators and definitions + HexaryTrie.tla "
                    "state machine, bounded instances in MC_Hexary.tla, trace reader Trace_Hexary.tla) model checked by "
                    "TLC; behaviours emitted per transition / per state are replayed on trie.HexaryTrie by "
@@ -59,6 +65,19 @@ add("C08", "tlc-hexary", "TraverseMatchesCanon compares the transcription of _tr
     "TraverseFromAgrees covers every split into prefix and segment, including continuation from simulated nodes; "
     "for every reachable state the real traverse / traverse_from / root_node are compared field by field and "
     "database reads are counted per hop")
+add("C11", "tlc-fog", "Antichain, Commute, MarkIsExplores, RefusedUnchanged, ValidationExact and the query contracts "
+    "(answer in the acceptable set defined from containment and sorted neighbours) are model checked over every "
+    "exploration sequence of bounded depth; every transition is replayed on real fog objects, every earlier object "
+    "is re-examined for immutability, serialisation is decoded with an independent hex-prefix decoder and every "
+    "query key is asked after every transition",
+    technique="TLA+ specification model checked exhaustively with TLC and simulated; bound to the code by replaying "
+    "every TLC-generated transition (and random long behaviours) on the real class through its public API")
+add("C17", "tlc-scratchdb", "the action properties WrappedOnlyOnCommit, CommitApplies (last action per key wins, deletes "
+    "only if requested), AbortKeeps (Exception and BaseException exits) and BufferEmptiedOnExit and the invariant "
+    "ReadSeesLatest are model checked over every initial content and every call sequence; all behaviours up to a "
+    "bounded length (history kept in the state, no merging) and random long ones are replayed on the real class",
+    technique="TLA+ specification model checked exhaustively with TLC and simulated; bound to the code by replaying "
+    "every TLC-generated behaviour on the real class through its public API")
 
 
 def build():
